@@ -33,6 +33,7 @@ var genFiles = []genFile{
 	{Name: "Command"},
 	{Name: "Glob"},
 	{Name: "Selector"},
+	{Name: "SelectorParse"},
 	{Name: "Secretbox"},
 	{Name: "ChainTypes", Structs: true},
 	{Name: "ChainTime", Imports: []string{"ChainTypes"}, Prelude: "variable (now : Int)\n"},
@@ -54,6 +55,7 @@ var targets = []target{
 	{Dir: "pkg/policy", Recv: "glob", Name: "Match", Lean: "glob_Match", File: "Glob",
 		Fuel: []string{"(str.length + 1) * (pattern.length + 2) + 1", "pattern.length + 1"}},
 	{Dir: "pkg/policy/selector", Name: "resolveSliceIndices", Lean: "resolveSliceIndices", File: "Selector"},
+	{Dir: "pkg/policy/selector", Name: "tokenize", Lean: "tokenize", File: "SelectorParse", Fuel: []string{"str.length + 1"}},
 	{Dir: "pkg/meta/internal/crypto", Name: "validateKey", Lean: "validateKey", File: "Secretbox", Nilable: []string{"key"}},
 	{Dir: "token/delegation", Recv: "Token", Name: "IsValidAt", Lean: "Dlg_IsValidAt", File: "ChainTime"},
 	{Dir: "token/invocation", Recv: "Token", Name: "IsValidAt", Lean: "Inv_IsValidAt", File: "ChainTime"},
